@@ -1,6 +1,6 @@
 /-
-  GIV.Lemmas.CacheCodec — hex / decimal / ParseInt / Sprintf lemmas and the evaluation of the
-  regenerated format strings, for GIV.Props.C05 and C13.  Core Lean only.
+  GIV.Lemmas.CacheCodec — hex / decimal / ParseInt / padding lemmas (no index-codec facts: only HashSize),
+  for GIV.Props.C05 and C13.  Core Lean only.
 -/
 import GIV.Model.Cache
 
@@ -169,22 +169,5 @@ theorem parse_pad20 (i : Int) (h0 : 0 ≤ i) (h1 : i < 2 ^ 63) :
     parseInt 10 64 (skipSpaces (padLeft 20 (fmtInt i))) = some i := by
   rw [fmtInt_nonneg i h0, skipSpaces_padLeft_decimal, parseInt_decimal i.toNat (by omega)]
   congr 1; omega
-
-/-! ### the regenerated format strings, evaluated -/
-
-/-- The index entry, as the explicit concatenation the format string `"v1 %x %x %20d %20d\n"` denotes. -/
-theorem fmtEntry_eq (id out : Hash) (size t : Int) : fmtEntry id out size t =
-    [118, 49, 32] ++ (hexEncode id.val ++ (32 :: (hexEncode out.val ++ (32 :: (padLeft 20 (fmtInt size) ++ (32 :: (padLeft 20 (fmtInt t) ++ [10]))))))) := by
-  simp [fmtEntry, sprintf, sprintfGo, Gen.Cache.entryFormat, padLeft]
-
-/-- The trim record is the plain decimal Unix time (format `"%d"`). -/
-theorem trimRecord_eq (now : Int) : trimRecord now = fmtInt (unixOf now) := by
-  simp [trimRecord, sprintf, sprintfGo, Gen.Cache.trimFormat, padLeft]
-
-theorem fmtEntry_length' (id out : Hash) (size t : Int)
-    (hs0 : 0 ≤ size) (hs1 : size < 10 ^ 20) (ht0 : 0 ≤ t) (ht1 : t < 10 ^ 20) :
-    (fmtEntry id out size t).length = 175 := by
-  rw [fmtEntry_eq]
-  simp [Hash.hex_length, pad20_length size hs0 hs1, pad20_length t ht0 ht1]
 
 end GIV.Cache
